@@ -47,17 +47,14 @@ Proof.
   apply upd_model_names. intros x Hx. rewrite (Hf _ _ H1). apply find_model_In in E. tauto.
 Qed.
 
-Lemma connect_name pr c k m m' : connect pr c k m = Ok m' -> m_name m' = m_name m.
-Proof. unfold connect. destruct (connected m pr); [discriminate|]. intro H. inversion H. reflexivity. Qed.
+Lemma connect_to_name al pr c k m m' : connect_to al pr c k m = Ok m' -> m_name m' = m_name m.
+Proof. unfold connect_to. destruct (connected m pr); [discriminate|]. intro H. inversion H. reflexivity. Qed.
 
 Lemma set_inst_name_name idx nm m m' : set_inst_name idx nm m = Ok m' -> m_name m' = m_name m.
 Proof. unfold set_inst_name. destruct (name_taken _ _ _); [discriminate|]. intro H. inversion H. reflexivity. Qed.
 
-Lemma do_conn_name a i b j m m' : do_conn a i b j m = Ok m' -> m_name m' = m_name m.
-Proof.
-  unfold do_conn. destruct (find_cable _ _); [discriminate|]. destruct (_ && _); [discriminate|].
-  intro H. inversion H. reflexivity.
-Qed.
+Lemma do_conn_name al a i b j m m' : do_conn al a i b j m = Ok m' -> m_name m' = m_name m.
+Proof. unfold do_conn. destruct (nb_eqb _ _); intro H; inversion H; reflexivity. Qed.
 
 (* ---------- ports: lookups after the steps ---------- *)
 Lemma find_port_app p ps q :
@@ -116,9 +113,9 @@ Qed.
 
 (* ---------- header tokens ---------- *)
 (* common tail of parse_input_ports / parse_output_ports: grow the port, connect its pin *)
-Lemma grow_connect cur p i ms m q ms' :
+Lemma grow_connect al cur p i ms m q ms' :
   Inv ms -> find_model cur ms = Some m -> find_port p (m_ports m) = Some q ->
-  upd_model_res cur (connect (PTop p i) p i) (grow_port cur p (S i) ms) = Ok ms' ->
+  upd_model_res cur (connect_to al (PTop p i) p i) (grow_port cur p (S i) ms) = Ok ms' ->
   Inv ms' /\ map m_name ms' = map m_name ms.
 Proof.
   intros HI Hm Hq H.
@@ -129,11 +126,11 @@ Proof.
     assert (x = m2).
     { pose proof (find_model_unique _ x (proj1 HI2) Hx) as Hu. rewrite Hxn in Hu. congruence. }
     subst x. pose proof (proj2 HI2 m2 Hx) as Wm2.
-    destruct (connect_spec _ _ _ _ _ Hc (c_cables _ _ Wm2)) as [_ [Hn [Hp [Hi _]]]].
+    destruct (connect_to_spec _ _ _ _ _ _ Hc (c_cables _ _ Wm2)) as [_ [Hn [Hp [Hi _]]]].
     split; [congruence|]. split.
     + intros p' b. unfold port_bit. rewrite Hp. tauto.
-    + intro W. eapply connect_WFc; eauto. cbn. apply Hbits. lia.
-  - rewrite (names_upd_model_res _ _ _ _ H); [apply names_grow_port|]. intros; eapply connect_name; eauto.
+    + intro W. eapply connect_to_WFc; eauto. cbn. apply Hbits. lia.
+  - rewrite (names_upd_model_res _ _ _ _ H); [apply names_grow_port|]. intros; eapply connect_to_name; eauto.
 Qed.
 
 Lemma add_port_lookup r q ms m :
@@ -145,8 +142,8 @@ Proof.
   eexists. split; [reflexivity|]. cbn [set_insts set_ports m_ports]. rewrite find_port_app, Hq, str_eqb_refl. reflexivity.
 Qed.
 
-Lemma do_input_inv cur ms tok ms' :
-  Inv ms -> has cur ms -> do_input cur (Ok ms) tok = Ok ms' ->
+Lemma do_input_inv al cur ms tok ms' :
+  Inv ms -> has cur ms -> do_input al cur (Ok ms) tok = Ok ms' ->
   Inv ms' /\ map m_name ms' = map m_name ms.
 Proof.
   intros HI Hc H. unfold do_input in H. cbn [bind] in H.
@@ -162,17 +159,17 @@ Proof.
     assert (Hq1 : exists q1, find_port p (m_ports (set_ports m (upd_port p (fun q => set_pdir q DIn) (m_ports m)))) = Some q1).
     { cbn [set_ports m_ports]. rewrite find_port_upd; [|reflexivity]. rewrite Eq. eauto. }
     destruct Hq1 as [q1 Hq1].
-    destruct (grow_connect _ _ _ _ _ _ _ HI1 Hm1 Hq1 H) as [R1 R2]. split; [assumption|].
+    destruct (grow_connect _ _ _ _ _ _ _ _ HI1 Hm1 Hq1 H) as [R1 R2]. split; [assumption|].
     rewrite R2. unfold ms1. apply upd_model_names. intros x Hx. exact Hx.
   - set (q := mkPort p DIn 0) in H.
     assert (HI1 : Inv (add_port cur q ms)) by (eapply inv_add_port; eauto).
     destruct (add_port_lookup cur q ms m Hm Eq) as [m1 [Hm1 Hq1]].
-    destruct (grow_connect _ _ _ _ _ _ _ HI1 Hm1 Hq1 H) as [R1 R2]. split; [assumption|].
+    destruct (grow_connect _ _ _ _ _ _ _ _ HI1 Hm1 Hq1 H) as [R1 R2]. split; [assumption|].
     rewrite R2. apply names_add_port.
 Qed.
 
-Lemma do_output_inv cur ms tok ms' :
-  Inv ms -> has cur ms -> do_output cur (Ok ms) tok = Ok ms' ->
+Lemma do_output_inv al cur ms tok ms' :
+  Inv ms -> has cur ms -> do_output al cur (Ok ms) tok = Ok ms' ->
   Inv ms' /\ map m_name ms' = map m_name ms.
 Proof.
   intros HI Hc H. unfold do_output in H. cbn [bind] in H.
@@ -202,7 +199,7 @@ Proof.
   - inversion H; subst ms'. split.
     + eapply inv_grow_port; eauto.
     + rewrite names_grow_port. congruence.
-  - destruct (grow_connect _ _ _ _ _ _ _ HI2 Hm2 Hq2 H) as [R1 R2]. split; [assumption|]. congruence.
+  - destruct (grow_connect _ _ _ _ _ _ _ _ HI2 Hm2 Hq2 H) as [R1 R2]. split; [assumption|]. congruence.
 Qed.
 
 Lemma fold_inv_names {X} (f : result (list model) -> X -> result (list model)) l ms ms' :
@@ -294,9 +291,9 @@ Proof.
 Qed.
 
 (* ---------- connect_instance_pins ---------- *)
-Lemma conn_one_inv cur ref idx ms fa ms' :
+Lemma conn_one_inv al cur ref idx ms fa ms' :
   Inv ms -> iref_ok ms cur idx ref -> has ref ms ->
-  conn_one cur ref idx (Ok ms) fa = Ok ms' ->
+  conn_one al cur ref idx (Ok ms) fa = Ok ms' ->
   Inv ms' /\ map m_name ms' = map m_name ms /\ iref_ok ms' cur idx ref.
 Proof.
   intros HI Hi Hr H. unfold conn_one in H. cbn [bind] in H.
@@ -318,11 +315,11 @@ Proof.
     pose proof (iref_grows _ _ _ _ _ G1 Hi) as [m1 [x1 [A1 [A2 A3]]]].
     set (ms1 := grow_port ref p (S i) ms) in *.
     destruct (upd_model_res_find _ _ _ _ (proj1 HI1) H) as [m [m' [B1 [B2 B3]]]].
-    { intros; eapply connect_name; eauto. }
+    { intros; eapply connect_to_name; eauto. }
     assert (m = m1) by congruence. subst m.
     pose proof (find_model_In _ _ _ A1) as [Hm1in _].
     pose proof (proj2 HI1 m1 Hm1in) as Wm1.
-    destruct (connect_spec _ _ _ _ _ B2 (c_cables _ _ Wm1)) as [_ [Cn [Cp [Ci _]]]].
+    destruct (connect_to_spec _ _ _ _ _ _ B2 (c_cables _ _ Wm1)) as [_ [Cn [Cp [Ci _]]]].
     split; [|split].
     + apply (inv_upd_model_res _ _ _ _ HI1 H). intros y y' Hy Hyn Hc.
       assert (y = m1).
@@ -330,24 +327,24 @@ Proof.
       subst y. assert (y' = m') by congruence. subst y'.
       split; [apply find_model_In in A1; destruct A1; congruence|]. split.
       * intros p' b. unfold port_bit. rewrite Cp. tauto.
-      * intro W. eapply connect_WFc; eauto. cbn. exists x1. split; [assumption|].
+      * intro W. eapply connect_to_WFc; eauto. cbn. exists x1. split; [assumption|].
         rewrite A3. apply (sigb_find _ _ _ _ _ Hrm1). apply Hbits. lia.
-    + rewrite (names_upd_model_res _ _ _ _ H); [apply names_grow_port|]. intros; eapply connect_name; eauto.
+    + rewrite (names_upd_model_res _ _ _ _ H); [apply names_grow_port|]. intros; eapply connect_to_name; eauto.
     + exists m', x1. rewrite Ci. auto.
 Qed.
 
-Lemma connect_instance_pins_inv cur ref idx info ms ms' :
+Lemma connect_instance_pins_inv al cur ref idx info ms ms' :
   Inv ms -> iref_ok ms cur idx ref -> has ref ms ->
-  connect_instance_pins cur ref idx info ms = Ok ms' ->
+  connect_instance_pins al cur ref idx info ms = Ok ms' ->
   Inv ms' /\ map m_name ms' = map m_name ms.
 Proof.
   intros HI Hi Hr H. unfold connect_instance_pins in H.
   assert (R : Inv ms' /\ map m_name ms' = map m_name ms /\ iref_ok ms' cur idx ref); [|tauto].
-  apply (fold_res_inv (conn_one cur ref idx)
+  apply (fold_res_inv (conn_one al cur ref idx)
            (fun a => Inv a /\ map m_name a = map m_name ms /\ iref_ok a cur idx ref))
     with (l := info) (a := ms) (a' := ms'); auto.
   - intros a x a' [A1 [A2 A3]] Hf.
-    destruct (conn_one_inv cur ref idx a x a' A1 A3 (has_names _ _ _ A2 Hr) Hf) as [B1 [B2 B3]].
+    destruct (conn_one_inv al cur ref idx a x a' A1 A3 (has_names _ _ _ A2 Hr) Hf) as [B1 [B2 B3]].
     split; [assumption|]. split; [congruence|assumption].
 Qed.
 
@@ -382,13 +379,16 @@ Proof.
     eexists. eexists. split; [exact B3|]. split.
     - cbn. rewrite nth_error_upd_nth, A2, Nat.eqb_refl. reflexivity.
     - exact A3. }
-  destruct (connect_instance_pins_inv _ _ _ _ _ _ HI1 Hi1 (has_names _ _ _ N1 Hr) H2) as [R1 R2].
+  destruct (connect_instance_pins_inv _ _ _ _ _ _ _ HI1 Hi1 (has_names _ _ _ N1 Hr) H2) as [R1 R2].
   split; [assumption|]. split; [congruence|reflexivity].
 Qed.
 
 Definition J (s : st) : Prop := Inv (st_models s) /\ has (s_cur s) (st_models s).
 
 Lemma st_models_set_ms s ms : st_models (set_ms s ms) = ms.
+Proof. reflexivity. Qed.
+
+Lemma st_models_set_merged s al : st_models (set_merged s al) = st_models s.
 Proof. reflexivity. Qed.
 
 Lemma fold_ensure_port_inv r qs ms :
@@ -444,13 +444,13 @@ Proof.
        unfold has; rewrite upd_model_names by (intros y Hy; exact Hy); apply has_ensure).
   - (* .inputs *)
     apply bind_ok in H as [ms [H1 H2]]. inversion H2; subst s'. unfold J. rewrite st_models_set_ms. cbn [s_cur set_ms set_nl].
-    destruct (fold_inv_names (do_input (s_cur s)) l (st_models s) ms) as [R1 R2]; auto.
-    + intros a x a' A1 A2 A3. apply (do_input_inv _ _ _ _ A1 (has_names _ _ _ A2 Hc) A3).
+    destruct (fold_inv_names (do_input (s_merged s) (s_cur s)) l (st_models s) ms) as [R1 R2]; auto.
+    + intros a x a' A1 A2 A3. apply (do_input_inv _ _ _ _ _ A1 (has_names _ _ _ A2 Hc) A3).
     + split; [assumption|]. eapply has_names; eauto.
   - (* .outputs *)
     apply bind_ok in H as [ms [H1 H2]]. inversion H2; subst s'. unfold J. rewrite st_models_set_ms. cbn [s_cur set_ms set_nl].
-    destruct (fold_inv_names (do_output (s_cur s)) l (st_models s) ms) as [R1 R2]; auto.
-    + intros a x a' A1 A2 A3. apply (do_output_inv _ _ _ _ A1 (has_names _ _ _ A2 Hc) A3).
+    destruct (fold_inv_names (do_output (s_merged s) (s_cur s)) l (st_models s) ms) as [R1 R2]; auto.
+    + intros a x a' A1 A2 A3. apply (do_output_inv _ _ _ _ _ A1 (has_names _ _ _ A2 Hc) A3).
     + split; [assumption|]. eapply has_names; eauto.
   - (* .clock *)
     inversion H; subst s'. unfold J. rewrite st_models_set_ms. cbn [s_cur set_ms set_nl]. split.
@@ -515,11 +515,12 @@ Proof.
   - (* .conn *)
     destruct (pni a) as [[an ai]|]; [|discriminate]. cbn [bind] in H.
     destruct (pni b) as [[bn bi]|]; [|discriminate]. cbn [bind] in H.
-    apply bind_ok in H as [ms [H1 H2]]. inversion H2; subst s'. unfold J. rewrite st_models_set_ms. cbn [s_cur set_ms set_nl].
+    apply bind_ok in H as [ms [H1 H2]]. inversion H2; subst s'. unfold J. rewrite st_models_set_merged, st_models_set_ms.
+    cbn [s_cur set_merged set_ms set_nl].
     split.
     + apply (inv_upd_model_res _ _ _ _ HI H1). intros m m' Hm Hn Hd.
       pose proof (proj2 HI m Hm) as Wm.
-      destruct (do_conn_spec _ _ _ _ _ _ Hd (c_cables _ _ Wm)) as [Dn [Dp _]].
+      destruct (do_conn_spec _ _ _ _ _ _ _ Hd (c_cables _ _ Wm)) as [Dn [Dp _]].
       split; [congruence|]. split.
       * intros p b'. unfold port_bit. rewrite Dp. tauto.
       * intro W. eapply do_conn_WFc; eauto.
@@ -757,17 +758,14 @@ Proof.
   rewrite (Hf _ _ H1). apply HO. apply find_model_In in E. tauto.
 Qed.
 
-Lemma connect_orph pr c k m m' : connect pr c k m = Ok m' -> m_orphans m' = m_orphans m.
-Proof. unfold connect. destruct (connected m pr); [discriminate|]. intro H. inversion H. reflexivity. Qed.
-
 Lemma set_inst_name_orph idx nm m m' : set_inst_name idx nm m = Ok m' -> m_orphans m' = m_orphans m.
 Proof. intro H. apply set_inst_name_core in H. destruct H as [_ [_ [_ [H _]]]]. exact H. Qed.
 
-Lemma do_conn_orph a i b j m m' : do_conn a i b j m = Ok m' -> m_orphans m' = m_orphans m.
-Proof.
-  unfold do_conn. destruct (find_cable _ _); [discriminate|]. destruct (_ && _); [discriminate|].
-  intro H. inversion H. reflexivity.
-Qed.
+Lemma do_conn_orph al a i b j m m' : do_conn al a i b j m = Ok m' -> m_orphans m' = m_orphans m.
+Proof. unfold do_conn. destruct (nb_eqb _ _); intro H; inversion H; reflexivity. Qed.
+
+Lemma connect_to_orph al pr c k m m' : connect_to al pr c k m = Ok m' -> m_orphans m' = m_orphans m.
+Proof. unfold connect_to. destruct (connected m pr); [discriminate|]. intro H. inversion H. reflexivity. Qed.
 
 Lemma oinv_fold {A X} (f : result A -> X -> result A) (g : A -> list model) l a a' :
   (forall e x, f (Error e) x = Error e) ->
@@ -775,14 +773,14 @@ Lemma oinv_fold {A X} (f : result A -> X -> result A) (g : A -> list model) l a 
   Oinv (g a) -> fold_left f l (Ok a) = Ok a' -> Oinv (g a').
 Proof. intros He Hs. apply (fold_res_inv f (fun a => Oinv (g a)) He Hs). Qed.
 
-Lemma oinv_do_input cur ms tok ms' : Oinv ms -> do_input cur (Ok ms) tok = Ok ms' -> Oinv ms'.
+Lemma oinv_do_input al cur ms tok ms' : Oinv ms -> do_input al cur (Ok ms) tok = Ok ms' -> Oinv ms'.
 Proof.
   intros HO H. unfold do_input in H. cbn [bind] in H. destruct (pni tok) as [[p i]|]; [|discriminate]. cbn [bind] in H.
-  eapply oinv_upd_model_res; [|exact H|intros; eapply connect_orph; eauto].
+  eapply oinv_upd_model_res; [|exact H|intros; eapply connect_to_orph; eauto].
   apply oinv_grow_port. destruct (find_port _ _); [apply oinv_upd_model; auto|apply oinv_add_port; assumption].
 Qed.
 
-Lemma oinv_do_output cur ms tok ms' : Oinv ms -> do_output cur (Ok ms) tok = Ok ms' -> Oinv ms'.
+Lemma oinv_do_output al cur ms tok ms' : Oinv ms -> do_output al cur (Ok ms) tok = Ok ms' -> Oinv ms'.
 Proof.
   intros HO H. unfold do_output in H. cbn [bind] in H. destruct (pni tok) as [[p i]|]; [|discriminate]. cbn [bind] in H.
   set (ms1 := match find_port _ _ with None => _ | Some _ => ms end) in H.
@@ -791,7 +789,7 @@ Proof.
   assert (O2 : Oinv ms2) by (apply oinv_upd_model; auto).
   destruct (_ || _).
   - inversion H; subst. apply oinv_grow_port. assumption.
-  - eapply oinv_upd_model_res; [|exact H|intros; eapply connect_orph; eauto]. apply oinv_grow_port. assumption.
+  - eapply oinv_upd_model_res; [|exact H|intros; eapply connect_to_orph; eauto]. apply oinv_grow_port. assumption.
 Qed.
 
 Lemma oinv_do_pair ref a tok a' : Oinv (fst a) -> do_pair ref (Ok a) tok = Ok a' -> Oinv (fst a').
@@ -803,7 +801,7 @@ Proof.
   destruct (Nat.leb _ _); inversion H; subst; cbn; [apply oinv_grow_port|]; assumption.
 Qed.
 
-Lemma oinv_conn_one cur ref idx ms fa ms' : Oinv ms -> conn_one cur ref idx (Ok ms) fa = Ok ms' -> Oinv ms'.
+Lemma oinv_conn_one al cur ref idx ms fa ms' : Oinv ms -> conn_one al cur ref idx (Ok ms) fa = Ok ms' -> Oinv ms'.
 Proof.
   intros HO H. unfold conn_one in H. cbn [bind] in H.
   destruct (pni (snd fa)) as [[c k]|]; [|discriminate]. cbn [bind] in H.
@@ -811,7 +809,7 @@ Proof.
   destruct (str_eqb c k_unconn).
   - inversion H; subst. apply oinv_upd_model; auto.
   - destruct (find_port _ _); [|discriminate].
-    eapply oinv_upd_model_res; [|exact H|intros; eapply connect_orph; eauto]. apply oinv_grow_port. assumption.
+    eapply oinv_upd_model_res; [|exact H|intros; eapply connect_to_orph; eauto]. apply oinv_grow_port. assumption.
 Qed.
 
 Lemma oinv_finish_inst s ref idx nm info ms s' :
@@ -822,7 +820,7 @@ Proof.
   apply bind_ok in H as [ms1 [H1 H]]. apply bind_ok in H as [ms2 [H2 H]]. inversion H; subst s'. cbn [st_models s_nl b_models set_models].
   assert (O1 : Oinv ms1) by (eapply oinv_upd_model_res; [exact HO|exact H1|intros; eapply set_inst_name_orph; eauto]).
   unfold connect_instance_pins in H2.
-  apply (oinv_fold (conn_one (s_cur s) ref idx) (fun x => x) info ms1 ms2); auto.
+  apply (oinv_fold (conn_one (s_merged s) (s_cur s) ref idx) (fun x => x) info ms1 ms2); auto.
   intros a x a' A1 A2. eapply oinv_conn_one; eauto.
 Qed.
 
@@ -842,10 +840,10 @@ Proof.
   - destruct (b_top (s_nl s)); inversion H; subst s'; cbn [st_models s_nl b_models];
       (apply oinv_upd_model; [apply oinv_ensure; exact HO|auto]).
   - apply bind_ok in H as [ms [H1 H2]]. inversion H2; subst s'. rewrite st_models_set_ms.
-    apply (oinv_fold (do_input (s_cur s)) (fun x => x) l (st_models s) ms); auto.
+    apply (oinv_fold (do_input (s_merged s) (s_cur s)) (fun x => x) l (st_models s) ms); auto.
     intros a x a' A1 A2. eapply oinv_do_input; eauto.
   - apply bind_ok in H as [ms [H1 H2]]. inversion H2; subst s'. rewrite st_models_set_ms.
-    apply (oinv_fold (do_output (s_cur s)) (fun x => x) l (st_models s) ms); auto.
+    apply (oinv_fold (do_output (s_merged s) (s_cur s)) (fun x => x) l (st_models s) ms); auto.
     intros a x a' A1 A2. eapply oinv_do_output; eauto.
   - inversion H; subst s'. rewrite st_models_set_ms. apply oinv_upd_model; auto.
   - apply bind_ok in H as [s1 [H1 H]]. destruct (check_hierarchy_models _ _ _ H1) as [E1 E2].
@@ -873,7 +871,7 @@ Proof.
     apply oinv_upd_model; auto.
   - destruct (pni a) as [[an ai]|]; [|discriminate]. cbn [bind] in H.
     destruct (pni b) as [[bn bi]|]; [|discriminate]. cbn [bind] in H.
-    apply bind_ok in H as [ms [H1 H2]]. inversion H2; subst s'. rewrite st_models_set_ms.
+    apply bind_ok in H as [ms [H1 H2]]. inversion H2; subst s'. rewrite st_models_set_merged, st_models_set_ms.
     eapply oinv_upd_model_res; [exact HO|exact H1|intros; eapply do_conn_orph; eauto].
   - inversion H; subst s'. cbn [st_models s_nl b_models set_models]. apply oinv_upd_model; auto.
   - destruct (m_lib (cur_model s)); inversion H; subst s'. cbn [st_models s_nl b_models set_nl].
